@@ -475,6 +475,15 @@ def register_op(sess, ctx, functions, oi):
         ctx.delete_symbol(sym, force=bool(op.get("force")))
         prev = sess.delsyms.get(op["name"])
         sess.delsyms[op["name"]] = bool(op.get("force")) and (prev is None or prev)
+    elif k == "extern":
+        m = world.module
+        had = sorted((s_ for s_ in m.symbols if s_.name == op["name"]), key=lambda s_: s_.uuid.int)
+        sym = ctx.get_or_insert_extern_symbol(op["name"], op["lib"], preload=bool(op.get("preload")), libpath="/opt/lib" if op.get("libpath") else None)
+        if sym.name != op["name"] or sym.module is not m or (had and not any(sym is h for h in had)):
+            raise core.Violation(sess.armed, "aborted", {"exception": "extern-symbol", "message": "get_or_insert_extern_symbol did not hand out the module's symbol of that name", "session": sess.index}, {"exc": "extern-symbol"})
+        world.syms[op["name"]] = sym
+        model.proxy_syms.add(op["name"])
+        sess.fired["op.extern-get" if had else "op.extern-new"] += 1
     elif k == "insfn":
         p = sess.patches[oi] = SimPatch(sess, oi, op["patch"])
         sym = ctx.register_insert_function(op["name"], p)
